@@ -129,6 +129,8 @@ def shard_long(variant, tier):
     kind, oneshot, B, D = CTX[variant]
     ks = (8, 64, 512, 1024) if tier == "thorough" else (8, 64, 512)
     lens = [k * B + d for k in ks for d in (-1, 0, 1)] + ([65536, 65537, 131072] if tier == "thorough" else [65536])
+    if tier == "thorough" and variant in ("sha1", "sha256", "sha512", "sha3_256", "keccak512", "ripemd160", "blake2b_512", "blake2s_256"):
+        lens += [1 << 20, (1 << 20) + 1]
     cases = []
     for n in lens:
         m = pat(5, 7, n)
